@@ -79,6 +79,8 @@ pub struct SimCfg {
     pub room_guaranteed: bool,
     /// lossy baseline: every client -> server datagram emitted before this tick is lost
     pub c2s_blackout_until: u32,
+    /// lossy baseline: every client -> server datagram emitted in ticks [from, until) is lost
+    pub c2s_blackout_window: Option<(u32, u32)>,
     /// attacker injections towards client 0 as decision points (replays of the server's handshake replies)
     pub inject_to_client: bool,
 }
@@ -103,6 +105,7 @@ impl SimCfg {
             inject: false,
             room_guaranteed: false,
             c2s_blackout_until: 0,
+            c2s_blackout_window: None,
             inject_to_client: false,
         }
     }
@@ -187,6 +190,8 @@ pub struct Sim<'c> {
     pub events: Vec<Ev>,
     /// server side: time (ms) of the last authentic datagram from client i processed while it was connected / connecting
     pub last_auth_at_server: Vec<Option<u64>>,
+    /// multi-homed server: the public address each peer last sent to (replies leave from there)
+    pub reply_from: std::collections::HashMap<SocketAddr, SocketAddr>,
     /// client side: client clock time (ms) of the last authentic server datagram processed
     pub last_auth_at_client: Vec<Option<u64>>,
     pub client_now_ms: Vec<u64>,
@@ -227,6 +232,7 @@ impl<'c> Sim<'c> {
             s2c: vec![],
             events: vec![],
             last_auth_at_server: vec![None; cfg.clients.len()],
+            reply_from: Default::default(),
             last_auth_at_client: vec![None; cfg.clients.len()],
             client_now_ms: vec![0; cfg.clients.len()],
             faults_open: true,
@@ -302,7 +308,8 @@ impl<'c> Sim<'c> {
     }
 
     fn emit_from_server(&mut self, ctx: &mut Ctx, probe: &mut dyn NetProbe, to: SocketAddr, bytes: Vec<u8>) -> Result<(), Violation> {
-        let d = self.record(Who::Server, self.cfg.server_addrs[0], to, bytes);
+        let from = self.reply_from.get(&to).copied().unwrap_or(self.cfg.server_addrs[0]);
+        let d = self.record(Who::Server, from, to, bytes);
         ctx.note(|| format!("t{} server -> {}: #{} {}", self.tick, to, d, self.describe(d)));
         probe.on_emit(self, d)?;
         if self.cfg.server_silent_from.map(|t| self.tick >= t).unwrap_or(false) {
@@ -317,7 +324,8 @@ impl<'c> Sim<'c> {
         ctx.note(|| format!("t{} client{} -> {}: #{} {}", self.tick, i, to, d, self.describe(d)));
         probe.on_emit(self, d)?;
         let alive = self.cfg.server_addrs.iter().position(|a| *a == to).map(|k| self.cfg.alive[k]).unwrap_or(false);
-        if !alive || self.tick < self.cfg.c2s_blackout_until {
+        let in_window = self.cfg.c2s_blackout_window.map(|(a, b)| self.tick >= a && self.tick < b).unwrap_or(false);
+        if !alive || self.tick < self.cfg.c2s_blackout_until || in_window {
             return Ok(()); // nobody listens there / lossy baseline
         }
         self.fate(ctx, d, true);
@@ -532,6 +540,9 @@ impl<'c> Sim<'c> {
                 let from = self.dgs[d].from;
                 let first = self.dgs[d].deliveries == 0;
                 self.dgs[d].deliveries += 1;
+                if cfg.server_addrs.len() > 1 && matches!(self.dgs[d].by, Who::Client(_)) {
+                    self.reply_from.insert(from, self.dgs[d].to);
+                }
                 let before: Vec<Option<Duration>> = (0..cfg.clients.len()).map(|i| self.server.time_since_last_received_packet(cfg.clients[i].id)).collect();
                 let r = nc::srv_process(&mut self.server, from, &bytes)?;
                 ctx.transitions += 1;
